@@ -19,6 +19,7 @@ var VerifHarnesses = map[string]func(){
 	"VerifC02Strings":   VerifC02Strings,
 	"VerifC02Spellings": VerifC02Spellings,
 	"VerifC02CookieVerbatim": VerifC02CookieVerbatim,
+	"VerifC02LongValues": VerifC02LongValues,
 }
 
 func verifRealFraming() {
@@ -217,4 +218,23 @@ func VerifC02CookieVerbatim() {
 	zz.Assert(zz.Implies(!spy.Open, sess == nil), "C02.a cookie the cipher rejects yields no session")
 	zz.ReachIf(sess != nil, "loaded")
 	zz.ReachIf(sess == nil, "refused")
+}
+
+// VerifC02LongValues: the round trip also holds for values far larger than a cookie usually
+// is - a session whose group list holds one arbitrary name of 5000..6000 bytes.
+func VerifC02LongValues() {
+	verifRealFraming()
+	c1 := verifCipher(verifKey("key1"))
+	s := verifAnySession("sess", 0)
+	big := zz.NondetString("sess.long.group")
+	zz.Assume(zz.And(len(big) >= 5000, len(big) <= 6000))
+	s.Groups = []string{big}
+	sealed, err := MarshalSession(s, c1)
+	zz.Assert(zz.And(err == nil, sealed != ""), "C02.sealing a large session succeeds")
+	out, err := UnmarshalSession(sealed, c1)
+	zz.Assert(err == nil, "C02.a large sealed session opens under the same secret")
+	if err == nil {
+		zz.Reach("opened")
+		zz.Assert(verifSameSession(s, out), "C02.sealing then opening a large session returns exactly the original")
+	}
 }
